@@ -12,10 +12,13 @@ def prefix_key(hist):
     return json.dumps(hist, sort_keys=True)
 
 
+DEFAULTS = {"NormDrop": {"Nested": False}}      # constants added later: configurations written before them keep their meaning
+
+
 def model_check(report, module, name, consts, invariants, properties=(), workers=16, timeout=3000, spec=None, constraints=(),
                 depth=None):
     """depth: bound the exploration to behaviours of at most this many steps (TLCGet("level"))."""
-    c = dict(consts)
+    c = dict(DEFAULTS.get(module, {}), **consts)
     c["Record"] = False
     extra = ""
     constraints = list(constraints)
@@ -33,7 +36,7 @@ def model_check(report, module, name, consts, invariants, properties=(), workers
 
 
 def emit(report, module, name, consts, simulate=None, depth=None, seed=None, timeout=3000, workers=16, extra_invariants=(), limit=None):
-    c = dict(consts)
+    c = dict(DEFAULTS.get(module, {}), **consts)
     c["Record"] = True
     table = {}
 
@@ -139,6 +142,7 @@ def replay_file(ctx, path, kinds, module, replayer, set_consts=(), raw_consts=()
     rp = json.load(open(path))["replay"]
     sg = repo.load(ctx.repo)
     c = {k: (set(v) if k in set_consts else tlc.Raw(v) if k in raw_consts else v) for k, v in rp["consts"].items()}
+    c = dict(DEFAULTS.get(module, {}), **c)
     c["Record"] = True
     hist = rp["history"]
     c["MaxHist"] = max(c.get("MaxHist", 0), len(hist))
